@@ -193,6 +193,8 @@ fn gen_history(rng: &mut Prng, prop: &str, thorough: bool) -> History {
             }
         } else if hit(2) {
             ops.push(Op::GetN(gen_key(rng, space), 130));
+        } else if hit(2) {
+            ops.push(Op::SeekN(gen_key(rng, space), 130));
         } else if hit(if prop == "C03" || prop == "C11" { 6 } else { 2 }) {
             if live_iters.len() < 3 && (live_iters.is_empty() || rng.chance(1, 2)) {
                 ops.push(Op::IterOpen(next_iter));
